@@ -810,8 +810,10 @@ def extract_capabilities(text: bytes) -> tuple[bytes, list[bytes]]:
     """
     if b"\0" not in text:
         return text, []
-    text, capabilities = text.rstrip().split(b"\0")
-    capabilities = capabilities.strip()
+    text, capabilities = text.split(b"\0")
+    # Only the list separator and the line terminator are not part of a
+    # capability; strip() without argument would also eat TAB, CR, VT and FF.
+    capabilities = capabilities.strip(b" \n")
     if not capabilities:
         # b"".split(b" ") is [b""], not []
         return (text, [])
@@ -830,7 +832,7 @@ def extract_want_line_capabilities(text: bytes) -> tuple[bytes, list[bytes]]:
       text: Want line to extract from
     Returns: Tuple with text with capabilities removed and list of capabilities
     """
-    split_text = text.rstrip().split(b" ")
+    split_text = text.rstrip(b" \n").split(b" ")
     if len(split_text) < 3:
         return text, []
     return (b" ".join(split_text[:2]), split_text[2:])
